@@ -351,6 +351,53 @@ pub fn check_count(n: usize, comment: &[u8], st: &mut Stats, order: u64) {
             st.viol(format!("count/reader-panic/{}", panic_site(&p)), p, case(), order)
         }
     }
+    // the same archive through the streaming reader's visitor: every entry once, then every directory record's metadata, a
+    // clean end (the ZIP64 end records sit behind the last directory record when the count needs them). An archive without
+    // entries is outside what C10 states about the streaming reader (it begins with an end record, which that reader
+    // reports as an invalid local header): not judged here either.
+    if n > 0 {
+        struct V {
+            files: usize,
+            metas: usize,
+            bad: Option<String>,
+        }
+        impl zip::unstable::stream::ZipStreamVisitor for V {
+            fn visit_file(&mut self, f: &mut zip::read::ZipFile<'_>) -> zip::result::ZipResult<()> {
+                if self.bad.is_none() && f.name() != format!("n{}", self.files) {
+                    self.bad = Some(format!("streamed entry {} is named {:?}", self.files, f.name()));
+                }
+                let mut v = vec![];
+                if let Err(e) = f.read_to_end(&mut v) {
+                    self.bad.get_or_insert(format!("streamed entry {}: {e}", self.files));
+                }
+                let want: Vec<u8> = if self.files % 1000 == 999 { vec![(self.files % 251) as u8] } else { vec![] };
+                if v != want {
+                    self.bad.get_or_insert(format!("streamed entry {} content {v:?}", self.files));
+                }
+                self.files += 1;
+                Ok(())
+            }
+            fn visit_additional_metadata(&mut self, m: &zip::unstable::stream::ZipStreamFileMetadata) -> zip::result::ZipResult<()> {
+                if self.bad.is_none() && m.name() != format!("n{}", self.metas) {
+                    self.bad = Some(format!("directory record {} is named {:?}", self.metas, m.name()));
+                }
+                self.metas += 1;
+                Ok(())
+            }
+        }
+        let mut v = V { files: 0, metas: 0, bad: None };
+        sf.seek(SeekFrom::Start(0)).ok();
+        let r = guard(|| zip::unstable::stream::ZipStreamReader::new(&mut sf).visit(&mut v).map_err(|e| e.to_string()));
+        let verdict = match r {
+            Err(p) => Some(format!("panicked: {p}")),
+            Ok(Err(e)) => Some(format!("visit() failed after {} entries and {} directory records: {e}", v.files, v.metas)),
+            Ok(Ok(())) => v.bad.clone().or(if v.files != n || v.metas != n { Some(format!("{} entries and {} directory records visited", v.files, v.metas)) } else { None }),
+        };
+        if let Some(e) = verdict {
+            ok = false;
+            st.viol("count/stream-visitor", format!("{n} entries: ZipStreamReader::visit: {e}"), case(), order);
+        }
+    }
     // the archive re-opened for append, one entry added, finished: the count moves on by one (across 65535 / 65536 too)
     if ok && n >= 65534 {
         let r = guard(|| -> Result<(), String> {
